@@ -565,7 +565,7 @@ def run_check(prop: str, tier: str, harness_filter=None, workers=None) -> int:
             f"asserts={e['assertions_discharged']}/{e['assertions_symbolic']}sym "
             f"twin={'n/a' if not tw else ('caught' if tw['violated'] else 'MISSED')}"
             + (" cvc5[agree={agree} unknown={cvc5_unknown} error={cvc5_error} disagree={disagree} {cvc5_s}s]".format(
-                **e["second_solver_cvc5"]) if "second_solver_cvc5" in e else "")
+                **e["second_solver_cvc5"]) if e.get("second_solver_cvc5", {}).get("cvc5_s") else "")
         )
     if violations_out:
         for name, v, p in violations_out:
